@@ -112,6 +112,7 @@ Definition astep (A : astate) (o : op) (out : outcome) : astate :=
       | OSet e id v, _ => a_upd A e (fun a => if reg_zs (as_reg A) id then a else mkA (a_mask a) (a_target a) ((id, v) :: a_vals a))
       | ORemoveEntity e, _ =>
           mkAS (assoc_del e (as_ents A)) (filter (fun x => x <> e) (as_live A)) (as_issued A) (as_reg A)
+      | OReset, _ => mkAS [] [] [] (as_reg A)
       | ORegister key isrel zs, VNat id =>
           if id =? length (as_reg A)
           then mkAS (as_ents A) (as_live A) (as_issued A) (as_reg A ++ [mkCI key isrel zs])
